@@ -5,8 +5,9 @@ import PyrollModel.Proto
   Line-protocol driver of the velocity-loop model (C19).
 
       eval <formula> <var>=<bits> …                      → bits of the generated `Expr` over Float (EvalDriver)
-      run <b|f> <budget> <speed> <aux> <usable> <areas>  → `ok <iterations> <0|1 converged> <v₀;v₁;…>` | `IndexError`
-          floats as IEEE bit patterns; <usable> = b,b,… (`-` = empty); <areas> = vector;vector;… where the k-th vector
+      run <b|f> <budget> <speed> <aux> <units> <areas>   → `ok <iterations> <0|1 converged> <v₀;v₁;…>` | `IndexError`
+          floats as IEEE bit patterns; <units> = the unit list of the sequence at the time of the call: `t` for a unit that is
+          no roll pass, the usable area for a roll pass (`-` = empty); <areas> = vector;vector;… where the k-th vector
           is what the k-th `solve` call of the real run left as out cross-section areas (`S k _`); a call beyond the
           recorded ones yields NaN areas, so a model that runs longer than the implementation shows up.
           <v₀;v₁;…> = the velocities written before every solve call, oldest first.
@@ -16,6 +17,11 @@ open Proto
 
 def floats? (s : String) : Option (List Float) :=
   if s = "-" then some [] else (s.splitOn ",").mapM floatOfBitsStr
+
+/-- the unit list of the sequence at the time of the call: `t` = a unit that is no roll pass, bits = usable area of a pass -/
+def units? (s : String) : Option (List (Velo.SeqUnit Float)) :=
+  if s = "-" then some [] else (s.splitOn ",").mapM fun t =>
+    if t = "t" then some Velo.SeqUnit.other else (floatOfBitsStr t).map Velo.SeqUnit.pass
 
 def vecs? (s : String) : Option (List (List Float)) :=
   if s = "-" then some [] else (s.splitOn ";").mapM floats?
@@ -37,11 +43,11 @@ def handle (line : String) : String :=
   match toks line with
   | "eval" :: rest => EvalDriver.handle Gen.C19.table (" ".intercalate rest)
   | ["run", dir, budget, speed, aux, usable, areas] =>
-    match nat? budget, floatOfBitsStr speed, floatOfBitsStr aux, floats? usable, vecs? areas with
+    match nat? budget, floatOfBitsStr speed, floatOfBitsStr aux, units? usable, vecs? areas with
     | some b, some sp, some ax, some us, some rec =>
-      let S := solveOf rec us.length
-      if dir = "b" then showResult (VeloGen.backward S b sp ax us)
-      else if dir = "f" then showResult (VeloGen.forward S b sp ax us)
+      let S := solveOf rec (Velo.rollPasses us).length
+      if dir = "b" then showResult (VeloGen.backwardSeq S b sp ax us)
+      else if dir = "f" then showResult (VeloGen.forwardSeq S b sp ax us)
       else "bad-op"
     | _, _, _, _, _ => "bad-op"
   | _ => "bad-op"
